@@ -28,6 +28,11 @@ type Config struct {
 	DiffSolvers bool
 	Deadline    time.Time
 	WitnessVecs bool
+	// OnlyLabels, when set, makes every assertion whose label contains none of
+	// these substrings a no-op (neither checked nor assumed): the harness lends
+	// only part of its oracle to the property being checked, and a violation of
+	// the rest must not cut the path short before the relevant assertions.
+	OnlyLabels []string
 }
 
 // Machine is the immutable, shared part: the SSA program built from the
@@ -398,6 +403,9 @@ func (m *Machine) merge(rr *RunResult, res *PathResult) {
 	rr.Outcomes[res.Outcome]++
 	if res.Outcome != "ok" && res.Outcome != "pruned" && res.Outcome != "stopped" {
 		rr.Details[res.Outcome+": "+res.Detail]++
+	}
+	for _, t := range res.Truncs {
+		rr.Details[t]++
 	}
 	rr.Steps += res.Steps
 	rr.Decisions += res.Decisions
